@@ -15,6 +15,7 @@ import (
 	"runtime"
 	"strings"
 	"sync"
+	"sync/atomic"
 	"time"
 
 	"github.com/google/uuid"
@@ -87,26 +88,28 @@ func (n *mirrorNode) CancelBlockRequest(ctx context.Context, hash bitcoin.Hash32
 }
 
 type bdWorld struct {
-	ctx     context.Context
-	bd      *bitcoin_reader.BlockDownloader
-	node    *mirrorNode
-	proc    *countingProcessor
-	header  *wire.BlockHeader
-	ntx     int
-	intr    chan interface{}
-	intrSet bool
-	runDone chan error
-	runErr  error
-	runRet  bool
-	hDone   chan struct{}
-	cDone   chan struct{}
-	sDone   chan struct{}
-	cIssued bool
-	sIssued bool
-	mu      sync.Mutex
+	ctx        context.Context
+	bd         *bitcoin_reader.BlockDownloader
+	node       *mirrorNode
+	proc       *countingProcessor
+	header     *wire.BlockHeader
+	ntx        int
+	intr       chan interface{}
+	intrSet    bool
+	runDone    chan error
+	runErr     error
+	runRet     bool
+	hDone      chan struct{}
+	cDone      chan struct{}
+	sDone      chan struct{}
+	cIssued    bool
+	sIssued    bool
+	runStarted bool
+	stopPause  int // racing mode: scheduler yields between the node's read of blockOnStop and the call
+	mu         sync.Mutex
 }
 
-func newBdWorld(ntx int) *bdWorld {
+func newBdWorld(ntx int, lateRun bool) *bdWorld {
 	w := &bdWorld{ntx: ntx}
 	w.ctx = logger.ContextWithNoLogger(context.Background())
 	var ids []bitcoin.Hash32
@@ -127,8 +130,19 @@ func newBdWorld(ntx int) *bdWorld {
 	w.bd.SetCanceller(w.node.id, w.node)
 	w.intr = make(chan interface{})
 	w.runDone = make(chan error, 1)
-	go func() { w.runDone <- w.bd.Run(w.ctx, w.intr) }()
+	if !lateRun {
+		w.startRun()
+	}
 	return w
+}
+
+// startRun starts the downloader's Run thread.  The block manager starts it after it has asked the node for
+// the block, so the block message (and a shutdown) can be there before Run looks at its channels.
+func (w *bdWorld) startRun() {
+	if !w.runStarted {
+		w.runStarted = true
+		go func() { w.runDone <- w.bd.Run(w.ctx, w.intr) }()
+	}
 }
 
 func (w *bdWorld) interrupt() {
@@ -203,7 +217,13 @@ func (w *bdWorld) issue(ev string) string {
 		n.mu.Unlock()
 		w.sIssued = true
 		w.sDone = make(chan struct{})
+		pause := w.stopPause
 		go func() {
+			// the node has read blockOnStop under its lock and calls it after releasing the lock: in racing
+			// mode it is descheduled for a moment in between (a Cancel can run to completion meanwhile)
+			for ; pause > 0; pause-- {
+				runtime.Gosched()
+			}
 			if onStop != nil {
 				onStop(w.ctx)
 			}
@@ -304,7 +324,7 @@ func (w *bdWorld) settle(wants []bdObs, d time.Duration) (bdObs, []int) {
 // bdlRunGroup plays one event sequence. Where Run has a choice (both of its channels are ready)
 // the specification allows several observation sequences: the real one must equal one of them.
 func bdlRunGroup(ntx int, events []string, cands [][]bdObs) (string, []string) {
-	w := newBdWorld(ntx)
+	w := newBdWorld(ntx, false)
 	var trace []string
 	msg := ""
 	alive := make([]int, len(cands))
@@ -368,6 +388,60 @@ func bdlRunGroup(ntx int, events []string, cands [][]bdObs) (string, []string) {
 	return msg, trace
 }
 
+// bdlRush plays an event sequence WITHOUT waiting for quiescence between the events (tiny seed-chosen
+// pauses only), so that Run, the handler, Cancel and Stop race the way they do when a shutdown, a
+// cancellation and a dropped peer coincide.  The intermediate observations are not comparable then;
+// what must hold is what TLC proves of BlockDownload.tla for every interleaving: after the final
+// interrupt Run returns and neither Cancel, Stop nor HandleBlock stays blocked (RunReturns, NoSendBlocked).
+func bdlRush(ntx int, events []string, seed int64) (string, []string) {
+	x := uint64(seed)*6364136223846793005 + 1442695040888963407
+	runAfter := int((x >> 50) % uint64(len(events)+2)) // Run starts after this many events (0: before the first)
+	w := newBdWorld(ntx, runAfter > 0)
+	w.stopPause = int((x >> 40) % 300)
+	var trace []string
+	for i, ev := range events {
+		if i == runAfter {
+			w.startRun()
+		}
+		trace = append(trace, ev)
+		if m := w.issue(ev); m != "" {
+			break // the sequence assumed a quiescent state that the race did not reach: stop issuing
+		}
+		x = x*6364136223846793005 + 1442695040888963407
+		for spin := int((x >> 33) % 400); spin > 0; spin-- {
+			runtime.Gosched()
+		}
+	}
+	w.startRun()
+	w.interrupt()
+	w.node.mu.Lock()
+	if w.node.txChannel != nil && !w.node.chClosed {
+		w.node.chClosed = true
+		close(w.node.txChannel)
+	}
+	w.node.mu.Unlock()
+	deadline := time.Now().Add(5 * time.Second)
+	for time.Now().Before(deadline) {
+		o := w.observe()
+		if o.RunDone && o.CancelDone && o.StopDone && (w.hDone == nil || chDone(w.hDone)) {
+			return "", trace
+		}
+		time.Sleep(100 * time.Microsecond)
+	}
+	o := w.observe()
+	switch {
+	case !o.RunDone:
+		return "racing events: Run did not return after the final interrupt", trace
+	case !o.CancelDone:
+		return "racing events: Cancel is still blocked on the downloader's signalling channels", trace
+	case !o.StopDone:
+		return "racing events: Stop is still blocked on the downloader's signalling channels", trace
+	case w.hDone != nil && !chDone(w.hDone):
+		return "racing events: HandleBlock is still blocked", trace
+	}
+	return "", trace
+}
+
 func diffObs(got, want bdObs) string {
 	var parts []string
 	add := func(name string, g, w interface{}) {
@@ -390,7 +464,9 @@ func bdlMain(args []string) int {
 	fs := flag.NewFlagSet("bdl", flag.ExitOnError)
 	in := fs.String("in", "", "behaviours")
 	workers := fs.Int("workers", 16, "workers")
+	rush := fs.Int("rush", 0, "additionally play every event sequence this many times without waiting for quiescence")
 	fs.Parse(args)
+	var rushed int64
 	type group struct {
 		ntx    int
 		events []string
@@ -451,6 +527,12 @@ func bdlMain(args []string) int {
 						msg, trace = msg2, trace2
 					}
 				}
+				if msg == "" && *rush > 0 {
+					for k := 0; k < *rush && msg == ""; k++ {
+						msg, trace = bdlRush(g.ntx, g.events, int64(k*7919+len(g.line)))
+						atomic.AddInt64(&rushed, 1)
+					}
+				}
 				mu.Lock()
 				n++
 				nbeh += len(g.cands)
@@ -482,6 +564,7 @@ func bdlMain(args []string) int {
 	stack := string(buf[:runtime.Stack(buf, true)])
 	parked := strings.Count(stack, "bitcoin_reader.(*BlockDownloader)")
 	json.NewEncoder(os.Stdout).Encode(map[string]interface{}{"behaviours": nbeh, "event_sequences": n, "events": events, "signatures": sigs,
+		"racing_runs": atomic.LoadInt64(&rushed),
 		"divergences": divs, "final_results": results, "samples": sample, "goroutines_parked_in_downloader": parked})
 	return 0
 }
